@@ -1071,9 +1071,16 @@ def r_disc_attribution(ctx):
     ok = False
     for g, cp in funcs:
         reads_reg = any(a.attr == registry and a.kind in ('read', 'call') for a in P.accesses(g))
+        lsrc = U.loop_sources(g)
+
+        def from_registry(x, g=g, lsrc=lsrc):
+            # an entry of the registry: self.registry[..], or a loop variable ranging over it / its items() / values()
+            if any(P.self_attr(y, g.self_name) == registry for y in ast.walk(x)):
+                return True
+            return isinstance(x, ast.Name) and any(P.self_attr(y, g.self_name) == registry for e_ in lsrc.get(x.id, ()) for y in ast.walk(e_))
         ident = any(isinstance(n, ast.Compare) and len(n.ops) == 1 and isinstance(n.ops[0], (ast.Is, ast.Eq))
                     and any(isinstance(x, ast.Name) and x.id == cp for x in (n.left, n.comparators[0]))
-                    and any(P.self_attr(y, g.self_name) == registry for x in (n.left, n.comparators[0]) for y in ast.walk(x)) for n in ast.walk(g.node))
+                    and any(from_registry(x) for x in (n.left, n.comparators[0]) if not (isinstance(x, ast.Name) and x.id == cp)) for n in ast.walk(g.node))
         if reads_reg and ident:
             ok = True
             where = g
